@@ -380,6 +380,10 @@ def run_property(prop_id, tier, seed, workers=None):
     os.makedirs(os.path.join(ROOT, "evidence"), exist_ok=True)
     with open(os.path.join(ROOT, "evidence", "%s.json" % prop_id), "w") as f:
         json.dump(ev, f, indent=1, sort_keys=True)
+    # the latest run of EACH tier is kept as well (evidence/<id>.json is whichever ran last)
+    os.makedirs(os.path.join(ROOT, "evidence", "by_tier"), exist_ok=True)
+    with open(os.path.join(ROOT, "evidence", "by_tier", "%s.%s.json" % (prop_id, tier)), "w") as f:
+        json.dump(ev, f, indent=1, sort_keys=True)
     print("%s tier=%s states=%d transitions=%d nontrivial=%d distinct_outcomes=%d "
           "assertions=%d violations=%d known=%d wall=%.1fs%s" % (
               prop_id, tier, stats.states, stats.transitions, stats.nontrivial,
